@@ -92,6 +92,18 @@ def extract(defines=(), tag="default"):
     return fdir, units
 
 
+def _strip_targs(q):
+    out, depth = [], 0
+    for ch in q:
+        if ch == "<":
+            depth += 1
+        elif ch == ">":
+            depth -= 1
+        elif depth == 0:
+            out.append(ch)
+    return "".join(out)
+
+
 class Function(dict):
     @property
     def where(self):
@@ -121,6 +133,9 @@ class Program:
                 if f["sig"] not in self.functions:
                     self.functions[f["sig"]] = f
                     self.by_qname.setdefault(f["qname"], []).append(f)
+                    nt = _strip_targs(f["qname"])
+                    if nt != f["qname"]:
+                        self.by_qname.setdefault(nt, []).append(f)
             for r in d["records"]:
                 self.records.setdefault(r["qname"], r)
             for e in d["enums"]:
